@@ -1,6 +1,7 @@
 """rt.arrays -- bounded stand-ins for the ndarray properties C11, C12, C13, C19, C20 (real code, native)."""
 import itertools
 import random
+import json
 
 from .logic import _result, _finish, _viol
 
@@ -308,6 +309,79 @@ def c20_bridges(tier, seed):
     return _finish(r)
 
 
+def poly_same_object(tier, seed):
+    """C11/C12/C19 on ONE polyhedron object queried repeatedly: every method leaves the polyhedron (matrix, variables,
+    bounds, index) unchanged and answers as a freshly built identical polyhedron does"""
+    import numpy as np
+    import puan
+    import puan.ndarray as pnd
+    r = _result("rt.poly_same_object", "random integer polyhedra (<=3x3, coefficients -3..3, boolean/integer/negative/degenerate bounds) x "
+                "sequences of 5 calls out of (reducable_rows, reducable_columns_approx, reducable_rows_and_columns, reduce, "
+                "reduce_columns, reduce_rows, row_bounds, tighten_column_bounds, ineqs_satisfied, separable, ineq_separate_points, "
+                "to_linalg, A_max, A_min) on the same object; snapshot of the object before/after each call and comparison of "
+                "each answer with the answer of a fresh copy; non-trivial = distinct (method, position)")
+    rng = random.Random(seed + 991)
+    n = 120 if tier == "quick" else 1200
+
+    def build(M, bnds):
+        vs = [puan.variable(0, (1, 1))] + [puan.variable("v%d" % j, b) for j, b in enumerate(bnds)]
+        return pnd.ge_polyhedron(np.array(M, dtype=np.int64), variables=vs, index=[puan.variable("r%d" % i) for i in range(len(M))])
+
+    def snap(p):
+        return (np.asarray(p).tolist(), [(str(v.id), tuple(v.bounds.as_tuple())) for v in p.variables],
+                [str(getattr(i, "id", i)) for i in p.index])
+
+    def norm(x):
+        if isinstance(x, tuple):
+            return [norm(e) for e in x]
+        if hasattr(x, "tolist"):
+            out = [np.asarray(x).tolist()]
+            if hasattr(x, "variables"):
+                out.append([str(v.id) for v in x.variables])
+            return json.dumps(out, default=str)
+        return json.dumps(x, default=str)
+
+    for k in range(n):
+        rows, cols = rng.randint(1, 3), rng.randint(1, 3)
+        M = [[rng.randint(-3, 3) for _ in range(cols + 1)] for _ in range(rows)]
+        bnds = [rng.choice([(0, 1), (0, 3), (-2, 2), (1, 1), (0, 0), (-3, -1), (2, 5)]) for _ in range(cols)]
+        pts = [[rng.randint(-2, 3) for _ in range(cols)] for _ in range(2)]
+        p = build(M, bnds)
+        calls = {
+            "reducable_rows": lambda q: q.reducable_rows(), "reducable_columns_approx": lambda q: q.reducable_columns_approx(),
+            "reducable_rows_and_columns": lambda q: q.reducable_rows_and_columns(),
+            "reduce": lambda q: q.reduce(*q.reducable_rows_and_columns()),
+            "reduce_columns": lambda q: q.reduce_columns(q.reducable_columns_approx()),
+            "reduce_rows": lambda q: q.reduce_rows(q.reducable_rows()),
+            "row_bounds": lambda q: q.row_bounds(), "tighten_column_bounds": lambda q: q.tighten_column_bounds(),
+            "ineqs_satisfied": lambda q: q.ineqs_satisfied(np.array(pts)), "separable": lambda q: q.separable(np.array(pts)),
+            "ineq_separate_points": lambda q: q.ineq_separate_points(np.array(pts)), "to_linalg": lambda q: q.to_linalg(),
+            "A_max": lambda q: q.A_max, "A_min": lambda q: q.A_min,
+        }
+        for step in range(5):
+            name = rng.choice(sorted(calls))
+            before = snap(p)
+            try:
+                got = norm(calls[name](p))
+            except Exception as e:
+                got = "raised " + type(e).__name__
+            try:
+                exp = norm(calls[name](build(M, bnds)))
+            except Exception as e:
+                exp = "raised " + type(e).__name__
+            after = snap(p)
+            r["evaluations"] += 1
+            r["_seen"].add((name, step))
+            w = {"matrix": M, "bounds": bnds, "points": pts, "call": name, "step": step}
+            if before != after:
+                _viol(r, f"array.polyhedron-changed-by[{name}]", w, before=str(before)[:300], after=str(after)[:300])
+                break
+            if got != exp:
+                _viol(r, f"array.answer-depends-on-earlier-call[{name}]", w, got=got[:300], expected=exp[:300])
+                break
+    return _finish(r)
+
+
 def c13_compress(tier, seed):
     """C13: ndint_compress methods"""
     import numpy as np
@@ -323,8 +397,29 @@ def c13_compress(tier, seed):
         nz = [x for x in col if x != 0]
         return nz[-1] if nz else 0
 
+    def check_same_array(M, axis, w):
+        """one array object queried by several methods in sequence: the array is an input, it must come out unchanged,
+        and every answer must equal the answer on a fresh copy (numpy views make in-place slips easy)"""
+        shared = pnd.integer_ndarray(np.array(M, dtype=np.int64))
+        ref = np.array(M, dtype=np.int64)
+        for method in ("shadow", "first", "prio", "min", "rank", "last", "max", "shadow"):
+            try:
+                got = np.asarray(shared.ndint_compress(method=method, axis=axis)).tolist()
+                want = np.asarray(pnd.integer_ndarray(ref.copy()).ndint_compress(method=method, axis=axis)).tolist()
+            except Exception:
+                continue
+            r["evaluations"] += 1
+            r["_seen"].add(("same-array", method, axis))
+            if not np.array_equal(np.asarray(shared), ref):
+                _viol(r, f"c13.input-array-changed[{method}]", dict(w, axis=axis), now=np.asarray(shared).tolist())
+                return
+            if got != want:
+                _viol(r, f"c13.answer-depends-on-earlier-call[{method}]", dict(w, axis=axis), got=got, want=want)
+                return
+
     def check_2d(M, axis, w):
         """M: 2-D list; reduce along `axis`"""
+        check_same_array(M, axis, w)
         arr = np.array(M, dtype=np.int64)
         lines = arr.T.tolist() if axis == 0 else arr.tolist()       # each line -> one output entry
         width = len(lines)
